@@ -50,6 +50,13 @@ THEOREMS = [
     "SqlglotModel.Properties.C12.load_aliases_comments_witness",
     "SqlglotModel.Properties.C12.load_aliases_meta_witness",
     "SqlglotModel.Properties.C12.raw_list_value_shared_witness",
+    "SqlglotModel.Properties.C12.type_view_roundtrip",
+    "SqlglotModel.Properties.C12.cast_type_materialised_witness",
+    "SqlglotModel.Properties.C12.datatype_own_type_dropped_witness",
+    "SqlglotModel.Properties.C12.copy_vs_load_dump",
+    "SqlglotModel.Properties.C12.copy_load_dump_differ_witness",
+    "SqlglotModel.Properties.C12.json_text_roundtrip",
+    "SqlglotModel.Properties.C12.dump_json_text_roundtrip",
     "SqlglotModel.Properties.C12.generated_ok",
     "SqlglotModel.Properties.C12.duplicate_keys_witness",
 ]
@@ -209,6 +216,27 @@ def translate(chk: Check) -> str:
             reduce_ok = len(rets) == 1 and rets[0].value is not None and ast.unparse(rets[0].value) == EXPECTED_REDUCE
     if not reduce_ok:
         problems.append("Expression.__reduce__ no longer returns (load, (dump(self),))")
+    # the `type` property (getter) and `Cast.to`: the branches Model/Serde.lean `typeProp` mirrors
+    type_ok = False
+    for cls in [n for n in core.body if isinstance(n, ast.ClassDef) and n.name == "Expression"]:
+        for fn in [n for n in cls.body if isinstance(n, ast.FunctionDef) and n.name == "type"
+                   and any(isinstance(d, ast.Name) and d.id == "property" for d in n.decorator_list)]:
+            rets = [ast.unparse(n.value) for n in sorted((n for n in ast.walk(fn) if isinstance(n, ast.Return)
+                                                         and n.value is not None), key=lambda n: n.lineno)]
+            type_ok = _shape(fn) == ["if self.is_data_type", "if self.is_cast"] and \
+                rets == ["self", "self._type or self.to", "self._type"]
+    if not type_ok:
+        shape_ok = False
+        problems.append("Expression.type getter differs from the modelled one (is_data_type -> self; is_cast -> _type or to; _type)")
+    _, exp_mod, _ = sg()
+    live = expression_classes()
+    cast_classes = sorted(class_name(c()) for c in live if getattr(c, "is_cast", False))
+    dt_classes = sorted(class_name(c()) for c in live if getattr(c, "is_data_type", False))
+    to_ok = all(isinstance(getattr(c, "to", None), property) and "to" in c.arg_types for c in live if getattr(c, "is_cast", False))
+    if not to_ok or not cast_classes or not dt_classes:
+        shape_ok = False
+        problems.append("is_cast classes without a `to` property/arg, or empty class tables")
+    chk.cov["type_rules"] = {"cast": cast_classes, "data_type": dt_classes}
     for cls in [n for n in core.body if isinstance(n, ast.ClassDef) and n.name == "Expression"]:
         found = {fn.name: fn for fn in cls.body if isinstance(fn, ast.FunctionDef)}
         for name, (want_shape, want_assign) in EXPECTED_CORE.items():
@@ -234,6 +262,9 @@ def translate(chk: Check) -> str:
     lines.append(f"def shapeAsModelled : Bool := {'true' if shape_ok else 'false'}")
     lines.append("-- Expression.__reduce__ returns (load, (dump(self),)): pickling is load . dump")
     lines.append(f"def reduceViaSerde : Bool := {'true' if reduce_ok else 'false'}")
+    lines.append("-- classes taking the special branches of Expression.type (live class attributes is_cast / is_data_type)")
+    lines.append("def castClasses : List String := [" + ", ".join(lean_str(c) for c in cast_classes) + "]")
+    lines.append("def dataTypeClasses : List String := [" + ", ".join(lean_str(c) for c in dt_classes) + "]")
     lines.append("-- how _load / dump pass mutable containers on (SharePolicy of Model/Serde.lean)")
     lines.append(f"def loadCopiesComments : Bool := {'true' if copies.get('_load') else 'false'}")
     lines.append(f"def loadBuildsMetaDict : Bool := {'true' if builds_meta else 'false'}")
@@ -280,15 +311,20 @@ def conv_raw(v, where, lenient=False):
     raise Unrep(type(v).__name__, where)
 
 
+# correspondence feeds the model trees with their raw `_type` fields (the model applies the `type` property: Cast falls
+# back to `to`, a DataType is its own type); the search oracle reads `.type` (the public view)
+_RAW_TYPE = False
+
+
 def conv(v, where="root", depth=0, lenient=False):
     """the harness's own reading of a tree (independent of serde): the JSON tree format of Driver/C12.lean"""
     _, exp, _ = sg()
     if depth > 400:
         raise Unrep("too-deep-or-cyclic", where)
     if isinstance(v, exp.Expr):
-        ty = v.type
+        ty = v._type if _RAW_TYPE else v.type
         tj = None
-        if ty is not None and ty is not v and ty:
+        if ty is not None and ty is not v and (_RAW_TYPE or ty):
             tj = conv(ty, where + ".type", depth + 1, lenient)
         cm = v.comments
         if cm is not None:
@@ -859,6 +895,52 @@ def arena_view(root):
     return out
 
 
+def json_tokens(text: str) -> list:
+    """the token sequence of a JSON text written by json.dumps (strings decoded by CPython's own scanner)"""
+    from json.decoder import py_scanstring
+
+    out, i, n = [], 0, len(text)
+    while i < n:
+        ch = text[i]
+        if ch in " \t\n\r":
+            i += 1
+        elif ch in "{}[],:":
+            out.append(ch)
+            i += 1
+        elif ch == '"':
+            s_, i = py_scanstring(text, i + 1)
+            out.append(["s", s_])
+        elif text.startswith("true", i):
+            out.append("true"); i += 4
+        elif text.startswith("false", i):
+            out.append("false"); i += 5
+        elif text.startswith("null", i):
+            out.append("null"); i += 4
+        else:
+            j = i + 1
+            while j < n and text[j].isdigit():
+                j += 1
+            if j < n and text[j] in ".eE":
+                raise Unrep("float", "json text")
+            out.append(["n", int(text[i:j])])
+            i = j
+    return out
+
+
+def sort_meta(payloads):
+    """the driver reads a meta dict in key order: present it that way (only meta dicts are reordered)"""
+    out = []
+    for p in payloads:
+        q = dict(p)
+        if isinstance(q.get("m"), dict):
+            q["m"] = {k: ({"__expr__": sort_meta(v["__expr__"])} if isinstance(v, dict) and "__expr__" in v else v)
+                      for k, v in sorted(q["m"].items())}
+        if isinstance(q.get("t"), list):
+            q["t"] = sort_meta(q["t"])
+        out.append(q)
+    return out
+
+
 def graph_cells(root):
     """the objects of a tree in `nodes` order (= payload order of its dump): Expressions and scalars"""
     _, exp, _ = sg()
@@ -901,6 +983,15 @@ def sharing_observed(serde, t) -> set:
 
 def correspond(chk: Check, trees: list) -> list:
     """trees: list of (origin, tree). Returns the origins/trees on which model and code differ."""
+    global _RAW_TYPE
+    _RAW_TYPE = True
+    try:
+        return _correspond(chk, trees)
+    finally:
+        _RAW_TYPE = False
+
+
+def _correspond(chk: Check, trees: list) -> list:
     _, exp, serde = sg()
     rng = chk.rng
     lines, meta = [], []
@@ -927,6 +1018,14 @@ def correspond(chk: Check, trees: list) -> list:
         lines.append(json.dumps({"op": "load", "payload": payloads, "expect": loaded}))
         meta.append((idx, "load", None))
         chk.corr_cases += 1
+        if idx % 5 == 2:
+            try:
+                canon = sort_meta(payloads)
+                lines.append(json.dumps({"op": "jsontok", "payload": canon, "tokens": json_tokens(json.dumps(canon))}))
+                meta.append((idx, "json-text", None))
+                chk.corr_cases += 1
+            except Unrep:
+                pass
         if idx % 3 == 0 and isinstance(loaded, dict):
             try:
                 hash(t)                                  # a cached hash on the source must not travel
@@ -1000,7 +1099,7 @@ def correspond(chk: Check, trees: list) -> list:
                     ex["tree"] = skeleton(conv(t))
                 except Exception:
                     pass
-            chk.correspondence_broken(("Expression.__deepcopy__" if what == "copy" else f"serde.{what.split('-')[0]}") + " vs model", ex)
+            chk.correspondence_broken(("Expression.__deepcopy__" if what == "copy" else "json.dumps token sequence" if what == "json-text" else f"serde.{what.split('-')[0]}") + " vs model", ex)
             bad.append(trees[idx])
     return bad
 
@@ -1537,7 +1636,7 @@ def run(chk: Check) -> None:
         "class names are opaque strings in the model: importing the class by name (`_load`) is exercised by correspondence and search, not proved",
         "`node.type` is what dump reads (for Cast it falls back to `to`, for DataType it is the node itself and is skipped); the model takes that view",
         "a payload list whose INDEX points at itself or forwards (cyclic result) is outside the model",
-        "ASSUMED, not modelled: the JSON *text* round trip json.loads(json.dumps(j)) == j for every JsonValue j (str-keyed dicts, lists, str/int/bool/None) and pickle's transport of such values (trusted CPython; exercised by the search oracle on every tree); the Lean side proves dump_json: every dumped payload is such a JsonValue",
+        "the JSON text round trip is proved at token level (json_text_roundtrip: grammar of lists / dicts / scalars; str-keyed dicts); ASSUMED, not modelled: CPython's lexing of string and integer tokens (escapes, ensure_ascii, digits) and pickle's transport of such values (exercised by the search oracle on every tree)",
         "pickling an Expression is load(dump(t)) with no state by __reduce__ (shape checked by the translator, consequence unpickled_no_hash proved)",
         "__deepcopy__ is modelled on a source tree plus a function hashOf saying which source nodes have a cached _hash (equal subtrees share their cache state); deepcopy of comments / raw meta values is value equality; a nested list value is shared by the real copy (not a node)",
         "None-valued args, empty-list args and comments == [] are identified with their absence (norm): no payload records them and ==, .sql(), .type, .comments-or-[] cannot see them",
